@@ -59,12 +59,22 @@ class RegisterAllocatableOperation(Operation, abc.ABC):
         """
         All used registers of all operations within a region.
         """
-        return {
-            reg
-            for op in region.walk()
-            if isinstance(op, RegisterAllocatableOperation)
-            for reg in RegisterAllocatedMemoryEffect.iter_used_registers(op)
-        }
+        res = set[RegisterType]()
+        for op in region.walk():
+            if not isinstance(op, RegisterAllocatableOperation):
+                continue
+            res.update(RegisterAllocatedMemoryEffect.iter_used_registers(op))
+            # Not every register allocatable operation declares register effects (e.g.
+            # parallel moves, get_register, loops), their allocated registers are in use
+            # all the same.
+            for val in (
+                *op.operands,
+                *op.results,
+                *(arg for r in op.regions for block in r.blocks for arg in block.args),
+            ):
+                if isinstance(val.type, RegisterType) and val.type.is_allocated:
+                    res.add(val.type)
+        return res
 
     @staticmethod
     def all_excluded_registers(
